@@ -134,6 +134,18 @@ def run(prop, tier):
         sel = rel + rest
     else:
         sel = rel
+    if tier == "thorough":
+        # every truncation length / every single-bit flip / every variant: on the straight continuations (honest response, verdict
+        # "same", first routing outcome) of each class; the other continuations of the same class get sampled variants
+        seen_fan = set()
+        for b in sel:
+            evs = flat(b)
+            cls = [(ev["f"].get("v"), ev["f"].get("c")) for ev in evs if ev["e"] == "rx" and (ev["f"].get("which") == "auth" or "c" in ev["f"])]
+            straight = not any(ev["e"] == "rx" and (ev["f"].get("unexpected") or ev["f"].get("k") == "Malformed") for ev in evs)
+            key = (b["hist"][0]["secret"], json.dumps(cls), len(b["hist"]))
+            if straight and key not in seen_fan:
+                seen_fan.add(key)
+                b["fan"] = "full"
     inp = os.path.join(wd, "behaviours.ndjson")
     outp = os.path.join(wd, "observed.ndjson")
     vlib.write_ndjson(inp, sel)
